@@ -195,24 +195,46 @@ Section P.
 
   Definition lim_pos (lim : option Z) : Prop := match lim with None => True | Some k => 1 <= k end.
 
-  Lemma any_agrees_p : forall c pp keep lim rows, 0 <= raw_page c -> 0 <= factor c -> lim_pos lim ->
-    any pp keep rows true true = Ok (negb (is_nil (iterate c pp keep lim rows))).
+  (* the driver-level answer (= the pre-fix answer of result objects) is right for every limit but 0 *)
+  Lemma any_driver_agrees_p : forall c pp keep lim rows, 0 <= raw_page c -> 0 <= factor c -> lim_pos lim ->
+    any_driver pp keep rows true true = Ok (negb (is_nil (iterate c pp keep lim rows))).
   Proof.
     intros c pp keep lim rows H1 H2 H3.
     rewrite execute_exact_p; auto; [|destruct lim; cbn in *; lia].
-    unfold any, visible. cbn [negb]. destruct pp; cbn [andb].
+    unfold any_driver, visible. cbn [negb]. destruct pp; cbn [andb].
     - rewrite existsb_filter. destruct lim as [k|]; cbn [firstn_opt]; [|reflexivity].
       cbn in H3. rewrite is_nil_firstn by lia. reflexivity.
     - destruct lim as [k|]; cbn [firstn_opt]; [|reflexivity]. cbn in H3. rewrite is_nil_firstn by lia. reflexivity.
   Qed.
 
+  (* full strength after repair 84ff715: every accepted limit, 0 included *)
+  Lemma any_agrees_p : forall c pp keep lim rows, 0 <= raw_page c -> 0 <= factor c -> lim_ok lim ->
+    any pp keep lim rows true true = Ok (negb (is_nil (iterate c pp keep lim rows))).
+  Proof.
+    intros c pp keep lim rows H1 H2 H3. destruct lim as [k|].
+    - cbn in H3. destruct (Z.eq_dec k 0) as [->|Hn].
+      + rewrite execute_exact_p by (auto; cbn; lia). reflexivity.
+      + replace (any pp keep (Some k) rows true true) with (any_driver pp keep rows true true) by (destruct k; try lia; reflexivity).
+        apply any_driver_agrees_p; auto. cbn. lia.
+    - apply (any_driver_agrees_p c pp keep None rows); auto; exact I.
+  Qed.
+
+  Lemma results_any_agrees_p : forall c pp keep lim rows, 0 <= raw_page c -> 0 <= factor c -> lim_ok lim ->
+    results_any pp keep lim rows true true = Ok (negb (is_nil (iterate c pp keep lim rows)))
+    /\ results_iterate c pp keep lim rows = Ok (iterate c pp keep lim rows).
+  Proof.
+    intros c pp keep lim rows H1 H2 H3. unfold results_any, results_iterate.
+    assert (E : limit_accepted lim = true) by (destruct lim; cbn in *; [apply Z.leb_le; assumption|reflexivity]).
+    rewrite E. split; [now apply any_agrees_p | reflexivity].
+  Qed.
+
   (* the inexact / non-executing forms only ever err on the side of True *)
-  Lemma any_false_sound_p : forall c pp keep lim rows e x, 0 <= raw_page c -> 0 <= factor c -> lim_ok lim ->
-    any pp keep rows e x = Ok false -> iterate c pp keep lim rows = [].
+  Lemma any_driver_false_sound_p : forall c pp keep lim rows e x, 0 <= raw_page c -> 0 <= factor c -> lim_ok lim ->
+    any_driver pp keep rows e x = Ok false -> iterate c pp keep lim rows = [].
   Proof.
     intros c pp keep lim rows e x H1 H2 H3 H. rewrite execute_exact_p by assumption.
     assert (V : visible pp keep rows = []).
-    { unfold any, visible in *. destruct e; cbn [negb] in H.
+    { unfold any_driver, visible in *. destruct e; cbn [negb] in H.
       - destruct pp, x; cbn [andb] in H.
         + rewrite existsb_filter in H. destruct (filter keep rows); [reflexivity|discriminate].
         + destruct rows; [reflexivity|discriminate].
@@ -222,8 +244,38 @@ Section P.
     rewrite V. destruct lim; cbn; [apply firstn_nil|reflexivity].
   Qed.
 
-  Lemma any_refuses_p : forall pp keep rows, any pp keep rows false true = ErrInvalidQuery.
-  Proof. reflexivity. Qed.
+  Lemma any_false_sound_p : forall c pp keep lim rows e x, 0 <= raw_page c -> 0 <= factor c -> lim_ok lim ->
+    any pp keep lim rows e x = Ok false -> iterate c pp keep lim rows = [].
+  Proof.
+    intros c pp keep lim rows e x H1 H2 H3 H. destruct lim as [k|].
+    - destruct (Z.eq_dec k 0) as [->|Hn].
+      + rewrite execute_exact_p by assumption. reflexivity.
+      + eapply any_driver_false_sound_p; eauto. destruct k; try (exfalso; apply Hn; reflexivity); exact H.
+    - eapply any_driver_false_sound_p; eauto.
+  Qed.
+
+  Lemma any_refuses_p : forall pp keep lim rows, lim_pos lim -> any pp keep lim rows false true = ErrInvalidQuery.
+  Proof. intros pp keep [k|] rows H; [|reflexivity]. cbn in H. destruct k; try lia; reflexivity. Qed.
+
+  (* repair dc45863: a negative limit never reaches the driver *)
+  Lemma negative_limit_refused_p : forall c pp keep k rows e x, k < 0 ->
+    results_iterate c pp keep (Some k) rows = ErrInvalidQuery
+    /\ results_count pp keep (Some k) rows e x = ErrInvalidQuery
+    /\ results_any pp keep (Some k) rows e x = ErrInvalidQuery.
+  Proof.
+    intros c pp keep k rows e x H. unfold results_iterate, results_count, results_any, limit_accepted.
+    replace (0 <=? k) with false by (symmetry; apply Z.leb_gt; assumption). auto.
+  Qed.
+
+  Lemma accepted_limit_passes_p : forall c pp keep lim rows e x, lim_ok lim ->
+    results_iterate c pp keep lim rows = Ok (iterate c pp keep lim rows)
+    /\ results_count pp keep lim rows e x = count pp keep lim rows e x
+    /\ results_any pp keep lim rows e x = any pp keep lim rows e x.
+  Proof.
+    intros c pp keep lim rows e x H. unfold results_iterate, results_count, results_any.
+    assert (E : limit_accepted lim = true) by (destruct lim; cbn in *; [apply Z.leb_le; assumption|reflexivity]).
+    rewrite E. auto.
+  Qed.
 
   (* ---------------- Butler.query_* ---------------- *)
   Definition explained (explain : bool) (limit : option Z) (r : list A) : res (list A) :=
@@ -265,15 +317,17 @@ Section P.
   Qed.
 End P.
 
-(* ---------------- refutations: witnesses replayed on the implementation ---------------- *)
+(* ---------------- refutations of the PRE-FIX variants: reverting a repair breaks the property ----------------
+   any_driver is what result objects answered before 84ff715; iterate/count with a raw negative limit is what
+   they did before dc45863 (the definitions are unchanged, only no longer reachable through results objects). *)
 Definition c4 : @cfg := {| raw_page := 4; factor := 10 |}.
 
-Lemma any_limit0_refuted_p : exists (pp : bool) (rows : list Z),
+Lemma any_prefix_limit0_refuted_p : exists (pp : bool) (rows : list Z),
   iterate c4 pp (fun _ => true) (Some 0) rows = [] /\ count pp (fun _ => true) (Some 0) rows true true = Ok 0
-  /\ any pp (fun _ => true) rows true true = Ok true.
+  /\ any_driver pp (fun _ => true) rows true true = Ok true.
 Proof. exists false, [1; 2; 3]. vm_compute. auto. Qed.
 
-Lemma negative_limit_refuted_p :
+Lemma negative_limit_prefix_refuted_p :
   (exists rows : list Z, iterate c4 true (fun _ => true) (Some (-1)) rows = []
                          /\ count true (fun _ => true) (Some (-1)) rows true true = Ok 3)
   /\ (exists rows : list Z, iterate c4 false (fun _ => true) (Some (-1)) rows = rows /\ rows <> []
